@@ -128,6 +128,9 @@ OPTION_POOL = [
 ]
 
 
+EXT_POOL = [("libraries", ["m"]), ("define_macros", [["VERIF_X", "1"]]), ("extra_compile_args", ["-O1"]), ("include_dirs", ["inc"]), ("language", "c")]
+
+
 def gen_history(rng, files, cfg):
     nco = rng.choice([1, 2, 2, 2, 3])
     steps = []
@@ -135,6 +138,7 @@ def gen_history(rng, files, cfg):
     mods = sorted(f for f in files if f.endswith(".pyx"))
     others = sorted(f for f in files if not f.endswith(".pyx"))
     opts = {}    # current option deltas per checkout
+    exts = {}    # current per-module Extension settings per checkout (cythonize only): they go into the embedded metadata block
     api = rng.choice(["cythonize", "cythonize", "compile"])
     vcounter = [10]
 
@@ -147,6 +151,8 @@ def gen_history(rng, files, cfg):
             ms = ms[:1]
         spec = {"co": co, "api": api, "modules": ms, "opts": dict(opts.get(co, {})),
                 "fresh_checkout": rng.random() < 0.8}
+        if api == "cythonize" and exts.get(co):
+            spec["ext"] = {m: dict(v) for m, v in exts[co].items() if m in ms and v}
         if rng.random() < 0.08:
             spec["cache_size"] = rng.choice([0, 1, 500, 4000])
         return spec
@@ -181,6 +187,19 @@ def gen_history(rng, files, cfg):
                 cur[k] = val
             opts[co] = cur
             steps.append({"op": "setopt", "co": co, "opts": cur})
+            steps.append({"op": "invoke", "invs": [inv(co)]})
+        elif r < 0.905 and api == "cythonize":
+            # change one distutils setting of one module's Extension (same sources, same options): only the metadata differs
+            m = rng.choice(mods)
+            key, val = rng.choice(EXT_POOL)
+            cur = {k: dict(v) for k, v in exts.get(co, {}).items()}
+            e = cur.setdefault(m, {})
+            if key in e:
+                del e[key]
+            else:
+                e[key] = val
+            exts[co] = cur
+            steps.append({"op": "setext", "co": co, "module": m, "ext": cur})
             steps.append({"op": "invoke", "invs": [inv(co)]})
         elif r < 0.94:
             f = rng.choice(mods)
@@ -355,7 +374,13 @@ def run_invocation(spec, cache_dir):
                 kw["force"] = True
             else:
                 kw["cache"] = cache_dir
-            cythonize(list(spec["modules"]), quiet=True, **kw)
+            mods = list(spec["modules"])
+            if spec.get("ext"):
+                from distutils.extension import Extension
+                mods = [Extension(os.path.splitext(m)[0].replace("/", "."), [m],
+                                  **{k: ([tuple(x) for x in v] if k == "define_macros" else v) for k, v in spec["ext"][m].items()})
+                        if spec["ext"].get(m) else m for m in mods]
+            cythonize(mods, quiet=True, **kw)
             res["ok"] = True
         else:
             if cache_dir is not None:
@@ -529,7 +554,7 @@ _ref_memo = {}
 def reference(rundir, files, spec):
     """Fresh uncached compilation of the same inputs/options in a clean process."""
     texts = {n: render(n, st) for n, st in files.items()}
-    key = core.digest({"t": texts, "api": spec["api"], "m": spec["modules"], "o": spec["opts"]})
+    key = core.digest({"t": texts, "api": spec["api"], "m": spec["modules"], "o": spec["opts"], "e": spec.get("ext")})
     r = _ref_memo.get(key)
     if r is not None:
         return r
@@ -609,7 +634,7 @@ def simulate(case, rundir, rng_sched):
     def check_result(step_i, spec, res, before, faulted, overlapped):
         c = spec["co"]
         after = outputs(cos[c])
-        ref = reference(rundir, state[c], {"api": spec["api"], "modules": spec["modules"], "opts": spec["opts"]})
+        ref = reference(rundir, state[c], {"api": spec["api"], "modules": spec["modules"], "opts": spec["opts"], "ext": spec.get("ext")})
         written = {n: h for n, h in after.items() if before.get(n) != h}
         now[0] += 1
         for n in written:       # simulated clock: outputs carry the simulated time of this build
@@ -669,6 +694,9 @@ def simulate(case, rundir, rng_sched):
                 probe("edits")
             elif op == "setopt":
                 log.append(("setopt", st))
+            elif op == "setext":
+                log.append(("setext", st))
+                probe("extension_setting_changes")
             elif op == "restart":
                 c = st["co"]
                 if c < nco and live[c]:
